@@ -45,7 +45,7 @@ func (C05) Meta() core.Meta {
 		},
 		Real:       []string{"influxql Scanner, reader, bufScanner, Parser (instrumented copy of the working tree)", "bufio.Reader"},
 		Stub:       []string{"input source (simstream.Stream)"},
-		ProbeNames: []string{"tiling-checked", "positions-checked", "crlf", "lone-cr", "multibyte", "invalid-utf8", "multi-line", "cut-in-crlf", "cut-in-rune", "refill-with-pending", "token:STRING", "token:BADSTRING", "token:BADESCAPE", "token:COMMENT", "token:DURATIONVAL", "token:NUMBER", "token:BOUNDPARAM", "token:ILLEGAL", "parse-error-pos-checked", "prefix-stability-checked"},
+		ProbeNames: []string{"tiling-checked", "positions-checked", "crlf", "lone-cr", "multibyte", "invalid-utf8", "multi-line", "cut-in-crlf", "cut-in-rune", "refill-with-pending", "token:STRING", "token:BADSTRING", "token:BADESCAPE", "token:COMMENT", "token:DURATIONVAL", "token:NUMBER", "token:BOUNDPARAM", "token:ILLEGAL", "parse-error-pos-checked", "prefix-stability-checked", "interleaved-scanners"},
 		FaultNames: []string{"cut:eof", "cut:err", "cut:data+err"},
 	}
 }
@@ -321,6 +321,63 @@ func scanAll(text []byte, sp simstream.Plan, bufSize int) *lexScan {
 	return out
 }
 
+func sameTokens(a, b []lexTok) string {
+	if len(a) != len(b) {
+		return fmt.Sprintf("%d tokens vs %d tokens", len(a), len(b))
+	}
+	for i := range a {
+		if a[i].tok != b[i].tok || a[i].lit != b[i].lit || a[i].pos != b[i].pos {
+			return fmt.Sprintf("token %d: %s %q @%d:%d vs %s %q @%d:%d", i, tokName(a[i].tok), a[i].lit, a[i].pos.Line, a[i].pos.Char, tokName(b[i].tok), b[i].lit, b[i].pos.Line, b[i].pos.Char)
+		}
+	}
+	return ""
+}
+
+// interleavedScanners: scanner A runs to EOF; scanner B is created over its own stream; A is asked
+// for more tokens (it must keep answering EOF); B must then scan exactly what a scanner alone scans.
+func interleavedScanners(text []byte, bufSize int, alone []lexTok, res *core.RunResult) {
+	verifhook.SetBufSize(bufSize)
+	defer verifhook.SetBufSize(4096)
+	var bToks []lexTok
+	aAfter := ""
+	verifhook.BeginOp(int64(40000 + 800*len(text)))
+	pan := core.Guard(func() {
+		a := influxql.NewScanner(simstream.New(text, simstream.Plan{Cut: -1, Chunks: []int{7}}))
+		for n := 0; n < len(text)+3; n++ {
+			if tok, _, _ := a.Scan(); tok == influxql.EOF {
+				break
+			}
+		}
+		b := influxql.NewScanner(simstream.New(text, simstream.Plan{Cut: -1, Chunks: []int{5}}))
+		for k := 0; k < 3; k++ {
+			if tok, _, lit := a.Scan(); tok != influxql.EOF {
+				aAfter = fmt.Sprintf("%s %q", tokName(tok), lit)
+			}
+		}
+		for n := 0; n < len(text)+3; n++ {
+			tok, pos, lit := b.Scan()
+			bToks = append(bToks, lexTok{tok: tok, lit: lit, pos: pos})
+			if tok == influxql.EOF {
+				break
+			}
+		}
+	})
+	res.Steps += verifhook.EndOp()
+	res.Probe("interleaved-scanners")
+	ctx := "text=" + strconv.QuoteToASCII(string(text))
+	if pan != nil {
+		res.Violate("scanner-interference:"+pan.Sig(), "two scanners used alternately on one goroutine: "+pan.Msg+"\n"+ctx)
+		return
+	}
+	if aAfter != "" {
+		res.Violate("scanner-interference", "a scanner that had reached EOF returned "+aAfter+" after another scanner was created\n"+ctx)
+		return
+	}
+	if d := sameTokens(alone, bToks); d != "" {
+		res.Violate("scanner-interference", "a scanner created after another one reached EOF does not scan its own text as it would alone: "+d+"\n"+ctx)
+	}
+}
+
 func hasNUL(t []byte) bool {
 	for _, c := range t {
 		if c == 0 {
@@ -357,6 +414,8 @@ func (C05) Exec(pi interface{}) *core.RunResult {
 	for k := lo; k <= hi; k++ {
 		eff := text[:k]
 		ref := positions(eff)
+		var firstToks []lexTok
+		firstCtx := ""
 		for _, kind := range p.Kinds {
 			for pi2, chunks := range policies {
 				if len(chunks) == 0 {
@@ -401,6 +460,13 @@ func (C05) Exec(pi interface{}) *core.RunResult {
 				}
 				if !sc.eofStable {
 					res.Violate("lexer-eof-not-sticky", "a Scan after EOF returned a non-EOF token\n"+ctx)
+				}
+				// (1b) the token stream is a function of the bytes, not of how they were delivered or of
+				// how the stream ended (needs no access to scanner internals)
+				if firstToks == nil {
+					firstToks, firstCtx = sc.toks, ctx
+				} else if d := sameTokens(firstToks, sc.toks); d != "" {
+					res.Violate("scanner-delivery-dependence", fmt.Sprintf("the same %d bytes scan to different tokens depending on delivery: %s\n  A: %s\n     %s\n  B: %s\n     %s", len(eff), d, firstCtx, tokList(firstToks), ctx, tokList(sc.toks)))
 				}
 				// (2) tiling
 				if sc.probeOK {
@@ -475,6 +541,9 @@ func (C05) Exec(pi interface{}) *core.RunResult {
 				res.Probe("cut-in-rune")
 			}
 		}
+	}
+	if p.OnlyCut < 0 && full.pan == nil {
+		interleavedScanners(text, p.BufSize, full.toks, res)
 	}
 	// (5) ParseError.Pos of a failed parse is the reference position of the first byte of a token
 	// of the independent tiling whose spelling matches Found
